@@ -40,6 +40,7 @@ struct Request {
 enum Answer {
     Rows(Vec<Vec<V>>),
     Err(String),
+    Panic(String),
 }
 
 #[derive(Serialize, Deserialize)]
@@ -77,9 +78,11 @@ pub fn child_main() -> i32 {
         let mut answers = Vec::new();
         if setup_error.is_none() {
             for q in &req.queries {
-                let run = |db: &vibesql_storage::Database| match vcore::engine::query_raw(db, q) {
-                    Ok(rows) => Answer::Rows(rows.iter().map(|r| r.values.iter().map(V::from_sql).collect()).collect()),
-                    Err(e) => Answer::Err(vcore::runner::truncate(&e.text(), 160)),
+                let run = |db: &vibesql_storage::Database| match vcore::runner::catch(|| vcore::engine::query_raw(db, q)) {
+                    Ok(Ok(rows)) => Answer::Rows(rows.iter().map(|r| r.values.iter().map(V::from_sql).collect()).collect()),
+                    Ok(Err(e)) => Answer::Err(vcore::runner::truncate(&e.text(), 160)),
+                    // a panic is an answer too: "PANIC" on one side and rows on the other is a difference
+                    Err(p) => Answer::Panic(vcore::runner::truncate(&p, 160)),
                 };
                 answers.push((run(&db), run(&db)));
             }
@@ -133,7 +136,7 @@ impl Kid {
         if writeln!(self.stdin, "{}", req).is_err() || self.stdin.flush().is_err() {
             return Err("child closed its input (died)".into());
         }
-        match self.rx.recv_timeout(Duration::from_secs(40)) {
+        match self.rx.recv_timeout(Duration::from_secs(90)) {
             Ok(l) => serde_json::from_str(&l).map_err(|e| format!("unreadable response: {}", e)),
             Err(std::sync::mpsc::RecvTimeoutError::Timeout) => Err("timeout".into()),
             Err(_) => Err("child died".into()),
@@ -161,6 +164,7 @@ fn to_crows(rows: &[Vec<V>]) -> Vec<CRow> {
 fn same(a: &Answer, b: &Answer, ordered: bool) -> bool {
     match (a, b) {
         (Answer::Err(_), Answer::Err(_)) => true,
+        (Answer::Panic(_), Answer::Panic(_)) => true,
         (Answer::Rows(x), Answer::Rows(y)) => {
             let (x, y) = (to_crows(x), to_crows(y));
             if ordered {
@@ -176,6 +180,7 @@ fn same(a: &Answer, b: &Answer, ordered: bool) -> bool {
 fn show(a: &Answer) -> String {
     match a {
         Answer::Err(e) => format!("  ERROR {}\n", e),
+        Answer::Panic(e) => format!("  PANIC {}\n", e),
         Answer::Rows(r) => vcore::val::show_rows(&to_crows(r), 20),
     }
 }
@@ -188,7 +193,7 @@ impl Check for C04 {
         "C04"
     }
     fn rule(&self) -> String {
-        "worlds of 1-3 tables with up to 10 rows (2/3) or up to 60 rows without subqueries (1/3), NULLs and duplicates; 1-3 queries per world from the typed grammar (INNER/LEFT/CROSS joins incl. hash-join shapes, WHERE with AND/OR/IN/BETWEEN/LIKE/CASE, subqueries, DISTINCT, aggregates, GROUP BY/HAVING, set operations, ORDER BY over all output columns with LIMIT/OFFSET). \
+        "worlds of 1-3 tables with up to 8 rows (2/3) or up to 60 rows without subqueries (1/3), NULLs and duplicates; 1-3 queries per world from the typed grammar (INNER/LEFT/CROSS joins incl. hash-join shapes, WHERE with AND/OR/IN/BETWEEN/LIKE/CASE, subqueries, DISTINCT, aggregates, GROUP BY/HAVING, set operations, ORDER BY over all output columns with LIMIT/OFFSET). \
          Each world+queries is sent to three long-lived child processes of this binary that differ only in PARALLEL_THRESHOLD and RAYON_NUM_THREADS: (max, 1) = never parallel, (0, 4) and (0, 2) = every scan/filter/sort/aggregate/join takes its parallel branch at every size. Every query is executed twice in each process. \
          Oracle: the two executions in one process agree (repeatability) and every always-parallel process agrees with the never-parallel one: equal multisets, equal sequences when ORDER BY covers all output columns; errors must be errors everywhere. \
          Non-trivial = the never-parallel answer has at least 2 rows or comes from an aggregate over at least 2 input rows. Distinct = hash of the case."
@@ -210,12 +215,15 @@ impl Check for C04 {
     fn tape_len(&self, _t: Tier) -> usize {
         3000
     }
+    fn floors(&self) -> Vec<(&'static str, f64)> {
+        vec![("case_compared", 0.98)]
+    }
     fn max_shrink_iters(&self) -> u32 {
         400
     }
     fn build(&self, t: &mut Tape, g: &GenCfg) -> C04Case {
         let big = t.chance(1, 3);
-        let world = gen_world(t, &WorldCfg { max_rows: if big { 60 } else { 10 }, max_tables: if big { 2 } else { 3 }, ..WorldCfg::default() });
+        let world = gen_world(t, &WorldCfg { max_rows: if big { 60 } else { 8 }, max_tables: if big { 2 } else { 3 }, ..WorldCfg::default() });
         // stay out of the regions of recorded defects (trigger names as in C01) in 80% of the workers
         let avoid = |s: &str| g.avoid_known && g.known_open.iter().any(|k| k.ends_with(s));
         let sub_off = avoid(".in_subquery") || avoid(".not_in_subquery") || avoid(".exists_subquery");
@@ -271,9 +279,13 @@ impl Check for C04 {
             Ok(())
         });
         if let Err(what) = outcome {
-            // a process that dies or hangs under one configuration is not a comparison result
-            return Verdict::Harness(format!("child process failed ({}); case:\n{}", what, self.render(case)));
+            // A process that is too slow or dies under one configuration gives no comparison
+            // result: the case is skipped and counted; the floor on `case_compared` turns a run
+            // with more than 2% skipped cases into "inconclusive" (exit 2), never into a violation.
+            obs.class(if what.ends_with("timeout") { "case_skipped_timeout" } else { "case_skipped_child_died" });
+            return Verdict::Pass;
         }
+        obs.class("case_compared");
         if let Some(e) = &responses[0].setup_error {
             return Verdict::Harness(format!("setup rejected: {}", e));
         }
